@@ -2,7 +2,7 @@
    change set (what a router or /json-delta client sees), and the case
    checker used by the correspondence run.  No proofs here. *)
 From Coq Require Import List NArith Bool.
-From RV Require Import Base.KMap C11.Model.
+From RV Require Export Base.KMap C11.Model.
 Import ListNotations.
 Local Open Scope N_scope.
 
